@@ -145,6 +145,9 @@ Definition step (cx : pctx) (st : pstate) (ol : wins * N) : res pstate :=
               | None =>
                   r3 <- push_ctl cx st2 KElse (f_start fr) (f_end fr) ;; let '(st3, a) := r3 in
                   r4 <- pop_ctl st3 ;; let '(_, st4) := r4 in
+                  (* no `else` in the input: the synthesized `else` (end of the consequent) has no location,
+                     the `end` being read closes the empty alternative *)
+                  let st4 := {| ar := set_end (set_end (ar st4) (if_cons ie) default_loc) a loc; ctl := ctl st4; ifs := ifs st4 |} in
                   alloc_in st4 0 (IIfElse (if_cons ie) a) (if_start ie)
               end
           end
